@@ -377,7 +377,7 @@ func runC15(c *Ctx, si interface{}) {
 		}
 		ts := TapeSpec{Mode: "choice", Seed: mix(s.Seed, "call", i), Default: "random"}
 		res := doCall(op.Op, NewTape(ts), e.char, e.wl, e.ptr)
-		c.T(res.brief())
+		c.T(res.tkey())
 		if op.Op == "gen" && e.char != nil && res.Kind == "ok" && len(res.Tape.CharLists) == 0 {
 			panic(sentCannotDrive) // hook H2 not reached: index order not owned
 		}
